@@ -15,6 +15,7 @@ func init() {
 	vxRegister("H04cQ", H04cQ)
 	vxRegister("H04cT", H04cT)
 	vxRegister("H04w", H04w)
+	vxRegister("H04h", H04h)
 	vxRegister("H04wQ", H04wQ)
 }
 
@@ -44,6 +45,9 @@ func H04a() {
 	vxAssert("asymmetric", !vxAnd(ab, ba))
 	vxAssert("transitive", vxImplies(vxAnd(ab, bc), ac))
 	vxAssert("total-on-distinguishable", vxImplies(vxAnd(!ab, !ba), vxSameKey(d[0], d[1])))
+	// sorting with Less yields non-increasing confidence (C03) ...
+	vxAssert("less-respects-confidence", vxImplies(ab, d[0].Confidence >= d[1].Confidence))
+	vxAssert("higher-confidence-sorts-first", vxImplies(d[0].Confidence > d[1].Confidence, ab))
 	vxCover("end")
 }
 
@@ -159,6 +163,24 @@ func h04c(edits int) {
 		vxAssert("matchfrom-no-error", err == nil)
 		vxSameResults("matchfrom", ref, r)
 	}
+	vxCover("end")
+}
+
+// H04h: what the tokenizer makes of x does not depend on what was tokenized before (buffers, pools,
+// dictionaries): x = symbolic bytes, after a call on text with multi-byte characters and after none.
+func H04h() {
+	x := vxBytes(2)
+	fresh := vxTokenizeBytes(x)
+	c := NewClassifier(0.8)
+	c.AddContent("License", "A", "a.txt", []byte("h\u00e9llo w\u00f6rld \u4e16\u754c licence"))
+	c.Match([]byte("caf\u00e9 \u00e9\u00e9\u00e9\u00e9 \U0001F600\U0001F600 \u00fc\u00fc"))
+	c.Normalize([]byte("\u00e9\u00e9\u00e9\u00e9\u00e9\u00e9 na\u00efve"))
+	used := vxTokenizeBytes(x)
+	vxSameDoc("history-tokens", fresh, used, true)
+	r1 := c.Match(x)
+	c.Normalize(x)
+	r2 := c.Match(x)
+	vxSameResults("history-match", r1, r2)
 	vxCover("end")
 }
 
